@@ -86,6 +86,9 @@ func runCheck(eng *Engine, prop, tier, verif string, loadS float64, start time.T
 		}
 		vcs = append(vcs, vc)
 	}
+	if len(eng.immutable) > 0 {
+		vcs = append(vcs, eng.immutabilityObligations())
+	}
 	opts := solveOpts{workDir: work, quickS: 4, fullS: 12, parallel: (runtime.NumCPU() + 1) / 2}
 	if tier == "thorough" {
 		opts.quickS, opts.fullS = 10, 60
